@@ -2,6 +2,7 @@ package validator
 
 import (
 	"context"
+	"fmt"
 	"github.com/aml-org/amf-custom-validator/internal/generator"
 	"github.com/aml-org/amf-custom-validator/internal/parser"
 	e "github.com/aml-org/amf-custom-validator/pkg/events"
@@ -21,7 +22,15 @@ func ProcessProfile(profileText string, debug bool, eventChan *chan e.Event) (*r
 	return CompileRego(regoUnit, eventChan)
 }
 
-func GenerateRego(profileText string, debug bool, eventChan *chan e.Event) (*generator.RegoUnit, error) {
+func GenerateRego(profileText string, debug bool, eventChan *chan e.Event) (unit *generator.RegoUnit, err error) {
+	// The profile parser and the code generator have no error results and signal invalid profiles
+	// (unknown prefix, malformed IRI, unsupported construct ...) by panicking: report those as errors
+	defer func() {
+		if r := recover(); r != nil {
+			unit, err = nil, fmt.Errorf("invalid profile: %v", r)
+		}
+	}()
+
 	// Parse profile
 	dispatchEvent(e.NewEvent(e.ProfileParsingStart), eventChan)
 	parsed, err := parser.Parse(profileText)
